@@ -89,9 +89,10 @@ def extract(repo=None, target=None, features=None, tag='facts', crate='pearl', _
         raise EngineError('bodies missing from extraction: %s' % prog.missing[:5])
     if _keep:
         import gzip
-        with open(out, 'rb') as fi, gzip.open(_keep + '.tmp', 'wb', compresslevel=3) as fo:
+        tmp = '%s.%d.%s.tmp' % (_keep, os.getpid(), hashlib.sha1(os.urandom(8)).hexdigest()[:6])    # several checks may run at once
+        with open(out, 'rb') as fi, gzip.open(tmp, 'wb', compresslevel=3) as fo:
             fo.write(fi.read())
-        os.replace(_keep + '.tmp', _keep)
+        os.replace(tmp, _keep)
     os.remove(out)
     return prog
 
